@@ -267,9 +267,18 @@ def run(chk):
     generic_orders(chk)
     user_names(chk)
     compose.run(chk, "types")
+    # MC_C09_imported (shared with C09): a user type of ANOTHER crate keeps its (declared) name at its only reference, whatever the
+    # shape of the type expression around it (folder output)
+    from .c09 import imported
+    imported(chk)
 
 
 def replay(chk, rec):
+    if rec.get("case", {}).get("site") == "imported":
+        from .c09 import imported
+        imported(chk)
+        chk.mismatches = {k: v for k, v in chk.mismatches.items() if k == rec["signature"]}
+        return
     if "compose" in rec.get("case", {}):
         return compose.replay(chk, rec, "types")
     if "src" in rec["case"]:
